@@ -208,7 +208,8 @@ Fixpoint aexec (p : stmt) (cur : bool) (a : ast) : list (ast * ares) :=
 End AExec.
 
 (* ---- checks on abstract outcomes ----------------------------------------------------------------------- *)
-Definition is_err (r : ares) : bool := match r with ARRet (RetErr _) | ARExn _ => true | _ => false end.
+(* ARNorm (falling off the end) never happens for a complete protocol; it is treated as an error so that the checks cover it *)
+Definition is_err (r : ares) : bool := match r with ARRet (RetErr _) | ARExn _ | ARNorm => true | _ => false end.
 Definition is_ok (r : ares) : bool := match r with ARRet RetOk => true | _ => false end.
 Definition tgt_old (a : ast) : bool := match a_tgt a with TOld => true | TNew => false end.
 Definition tmp_none (a : ast) : bool := match a_tmp a with MNone => true | _ => false end.
@@ -229,8 +230,11 @@ Definition chk_success (dry : bool) (t : ast * ares) : bool :=
   (if is_ok r then a_cont a && (if dry then tgt_old a && tmp_none a && negb (a_dirs a)
                                 else negb (tgt_old a) && tmp_none a) else true).
 Definition dry_of (p : proto_id) (X : aenv) : bool := match p with PExecute _ => x_dry X | PAtomic => false end.
+(* a dry call (corrections_only) leaves everything untouched whatever happens, faults and crashes included *)
+Definition chk_dry (dry : bool) (t : ast * ares) : bool :=
+  if dry then negb (a_top (fst t)) && tgt_old (fst t) && tmp_none (fst t) && negb (a_dirs (fst t)) else true.
 Definition chk_all (p : proto_id) (X : aenv) (t : ast * ares) : bool :=
-  chk_atomic t && chk_error X t && chk_success (dry_of p X) t.
+  chk_atomic t && chk_error X t && chk_success (dry_of p X) t && chk_dry (dry_of p X) t.
 
 Definition all_faults : list afault := [AFOk; AFPerm; AFOther; AFCrash].
 Definition bools := [true; false].
